@@ -183,7 +183,9 @@ fn run_segment(si: SegIn) -> SegOut {
         let mut k = 0;
         while k < n && *cur < nlines && !out.poisoned {
             let obs = p.exec_line(&si.job.lines[*cur]);
-            if si.stop_on_panic && matches!(obs.result, LineResult::Panic { .. }) {
+            if si.stop_on_panic
+                && matches!(obs.result, LineResult::Panic { .. } | LineResult::Budget)
+            {
                 out.poisoned = true;
             }
             out.execs.push(Exec {
